@@ -173,7 +173,7 @@ def report(ck, axis, kind, cl, what, replay):
 # ------------------------------------------------------------------------------------------------ TLC
 def base_constants(dev, **kw):
     c = dict(Docs="<- AllDocs", Cachings="{TRUE, FALSE}", PageSets="<- AllPageSets", Kinds='{"text"}', MaxCalls=2, MaxLive=2,
-             EarlyClose="TRUE", ClientCalls="TRUE", Dev=tla_set(dev) if dev else "<- NoDev", History="FALSE")
+             EarlyClose="TRUE", AutoClose="FALSE", ClientCalls="TRUE", Dev=tla_set(dev) if dev else "<- NoDev", History="FALSE")
     c.update(kw)
     return c
 
@@ -214,7 +214,8 @@ def tlc_jobs(ck, dev):
         hist.append(("hist2", dict(MaxCalls=2, MaxLive=2, EarlyClose="FALSE", Kinds='{"text", "xml"}', PageSets="<- TwoPageSets")))
     else:
         hist.append(("hist2", dict(MaxCalls=2, MaxLive=2, EarlyClose="TRUE", Kinds='{"text", "xml", "pages"}')))
-        hist.append(("hist3", dict(MaxCalls=3, MaxLive=3, EarlyClose="FALSE", Kinds='{"text"}', PageSets="<- BothPages",
+        # three interleaved generators over all document / caching combinations, both pages each, exhausted by the caller
+        hist.append(("hist3", dict(MaxCalls=3, MaxLive=3, EarlyClose="FALSE", AutoClose="TRUE", Kinds="{}", PageSets="<- BothPages",
                                    ClientCalls="FALSE")))
     for label, kw in hist:
         emit = os.path.join(ck.tmp, "c12_%s.ndjson" % label)
@@ -250,7 +251,7 @@ def pages0(ps):
     return sorted(p - 1 for p in ps)
 
 
-def replay_schedule(sched, docs, fresh, out, si):
+def replay_schedule(sched, docs, fresh, out, si, auto=False):
     from pdfminer.high_level import extract_pages
     slots = {}
     end = object()
@@ -282,6 +283,11 @@ def replay_schedule(sched, docs, fresh, out, si):
             cl = classify("pages", [got], [want])
             if cl is not None:
                 out["mismatch"].append((si, pos, "pages", key, cl, first_difference([got], [want])))
+            if auto and k + 1 >= len(fresh[key]):
+                # AutoClose: the caller's loop asks for the next page right away and the generator ends
+                if next(gen, end) is not end:
+                    out["mismatch"].append((si, pos, "pages", key, "diff", "the generator yields more pages than a fresh call"))
+                slots.pop(s)
         elif a == "close":
             gen, key, k = slots.pop(s)
             if k >= len(fresh[key]):
@@ -307,7 +313,7 @@ def replay_chunk(idxs):
     out = {"mismatch": [], "pages": 0, "calls": 0, "tables": [], "pid": os.getpid()}
     before = OBS.shared_tables()
     for si in idxs:
-        replay_schedule(G["scheds"][si], G["docs"], G["fresh"], out, si)
+        replay_schedule(G["scheds"][si], G["docs"], G["fresh"], out, si, G["auto"])
         if len(out["mismatch"]) > 200:
             break
     after = OBS.shared_tables()
@@ -391,7 +397,12 @@ def direction_a(ck, jobs, fp, docs, fresh, single, tokens):
         ck.add_tlc(res, "Purity %s (schedules for replay) %s" % (label, json.dumps(kw, sort_keys=True)))
         if not res.ok:
             raise MachineryError("Purity.tla violates %s on the intended design (%s):\n%s" % (res.violated, label, res.error_text[:3000]))
-        scheds = [json.loads(line)["sched"] for line in open(emit)]
+        auto = False
+        scheds = []
+        for line in open(emit):
+            r = json.loads(line)
+            scheds.append(r["sched"])
+            auto = bool(r["auto"])
         os.remove(emit)
         if len(scheds) != res.emitted or not scheds:
             raise MachineryError("emitted %d schedules, read %d" % (res.emitted, len(scheds)))
@@ -401,7 +412,7 @@ def direction_a(ck, jobs, fp, docs, fresh, single, tokens):
         random.Random(ck.seed * 7919 + len(scheds)).shuffle(order)
         size = max(50, min(400, len(order) // (nproc * 3) + 1))
         chunks = [order[i:i + size] for i in range(0, len(order), size)]
-        G.update(scheds=scheds, docs=docs, fresh=fresh)
+        G.update(scheds=scheds, docs=docs, fresh=fresh, auto=auto)
         ctx = multiprocessing.get_context("fork")
         pages = calls = 0
         pids = set()
@@ -416,7 +427,7 @@ def direction_a(ck, jobs, fp, docs, fresh, single, tokens):
                     report(ck, "history-dependent", kind, cl,
                            "%s of %s (caching=%s, pages=%s) in a process with a history differs from the same call in a fresh "
                            "process: %s" % (kind, ev.get("d"), ev.get("c"), ev.get("ps"), detail),
-                           {"kind": "schedules", "failing_event": pos, "schedules": [scheds[i] for i in upto]})
+                           {"kind": "schedules", "failing_event": pos, "auto": auto, "schedules": [scheds[i] for i in upto]})
                 for x in out["tables"]:
                     key = ("shared-table-mutated:" if x["cls"] == "immutable" else "cache-entry-modified:") + x["name"]
                     ck.violation(key, "process-wide table %s changed while replaying schedules (entries before %d, after %d, changed "
@@ -424,9 +435,20 @@ def direction_a(ck, jobs, fp, docs, fresh, single, tokens):
                                  {"kind": "schedules", "schedules": [scheds[i] for i in chunk[:40]]})
         for si in order:
             ck.case(sum(1 for ev in scheds[si] if ev["a"] == "page"), (label, si))
-        for sc in scheds[:: max(1, len(scheds) // 3)][:3]:
-            ck.sample({"schedule": [{k: ev[k] for k in ("a", "s", "d", "c", "ps", "k", "p", "txt")} for ev in sc],
-                       "replayed_in_one_process": True, "compared_with": "fresh process per (document, options, page)"})
+        inter = [sc for sc in scheds if len({ev["s"] for ev in sc if ev["a"] == "next"}) >= 2][:2] + \
+                [sc for sc in scheds if any(ev["a"] == "extract" for ev in sc) and any(ev["a"] == "next" for ev in sc)][:1]
+        for sc in inter:
+            steps = []
+            for ev in sc:
+                if ev["a"] == "page":
+                    steps.append("  -> page %d of %s: model %s, widths %s; real result = fresh-process result" % (ev["p"], ev["d"], ev["txt"], ev["w"]))
+                elif ev["a"] == "usecmap":
+                    steps.append("UseCMap(%s)" % ev["d"])
+                else:
+                    steps.append("%s slot %d %s caching=%s pages=%s%s" % (ev["a"], ev["s"], ev["d"], ev["c"], ev["ps"],
+                                                                         " via " + ev["k"] if ev["a"] == "extract" else ""))
+            ck.sample({"schedule_from_tlc": steps, "replayed_in_one_process": True,
+                       "each_result_compared_with": "the same call in a fresh process (digest equal, or equal up to the known address components)"})
         ck.replayed += len(scheds)
         total_sched += len(scheds)
         ck.extra["replay_%s" % label] = {"schedules": len(scheds), "page_results_compared": pages, "calls": calls,
@@ -780,7 +802,7 @@ def replay(path):
             fresh = dict(zip(combos, rf))
             out = {"mismatch": [], "pages": 0, "calls": 0}
             for i, sc in enumerate(c["schedules"]):
-                replay_schedule(sc, docs, fresh, out, i)
+                replay_schedule(sc, docs, fresh, out, i, bool(c.get("auto")))
             print("replayed %d schedules, %d page results, %d mismatches" % (len(c["schedules"]), out["pages"], len(out["mismatch"])))
             for m in out["mismatch"][:10]:
                 print("  schedule %d event %d %s %r: %s\n    %s" % m)
